@@ -1561,4 +1561,349 @@ theorem manOnly_exec (env : Env) (op : Op) (st : Store) : ManOnly op.involved (o
       intro st3
       exact manOnly_deleteUnused _ env _ st3
 
+
+/-! ## fixed variant (`atomicMan`): a manifest file is old or new, never torn -/
+
+/-- no effect of the list writes any manifest path -/
+def NoMan (es : List Effect) : Prop := ManOnly [] es
+
+theorem noMan_get {es : List Effect} {st : Store} (h : NoMan es) (n : Name) :
+    get (run es st) (.man n) = get st (.man n) :=
+  get_run_of_not_written (fun e he hm => by have := h e he n hm; cases this)
+
+theorem noMan_append {a b : List Effect} (ha : NoMan a) (hb : NoMan b) : NoMan (a ++ b) := manOnly_append ha hb
+
+theorem noMan_nil : NoMan [] := manOnly_nil []
+
+theorem noMan_crashPrefix {es p : List Effect} (h : NoMan es) (hp : CrashPrefix es p) : NoMan p := by
+  intro e he n hm
+  have := crashPrefix_writes (n := n) hp (fun e' he' hw => by have := h e' he' n hw; cases this) e he
+  exact absurd hm this
+
+def cuttable : Effect → Bool
+  | .app _ _ => true
+  | .pw _ _ _ => true
+  | _ => false
+
+theorem cutOf_cuttable {e e' : Effect} (h : CutOf e e') : cuttable e = true := by cases h <;> rfl
+
+/-- at most one effect of the list writes a manifest path, and that one is a single rename/unlink
+(not a data write that a crash could cut) -/
+inductive AMO : List Effect → Prop
+  | noMan {es : List Effect} : NoMan es → AMO es
+  | cons_noMan {e : Effect} {es : List Effect} : NoMan [e] → AMO es → AMO (e :: es)
+  | cons_man {e : Effect} {es : List Effect} : cuttable e = false → NoMan es → AMO (e :: es)
+
+theorem amo_append_left {a b : List Effect} (ha : NoMan a) (hb : AMO b) : AMO (a ++ b) := by
+  induction a with
+  | nil => exact hb
+  | cons e a ih =>
+    refine AMO.cons_noMan (fun x hx => ha x (by simp at hx; subst hx; simp)) (ih ?_)
+    exact fun x hx => ha x (by simp [hx])
+
+theorem amo_append_right {a b : List Effect} (ha : AMO a) (hb : NoMan b) : AMO (a ++ b) := by
+  induction ha with
+  | noMan h => exact AMO.noMan (noMan_append h hb)
+  | cons_noMan he _ ih => exact AMO.cons_noMan he ih
+  | cons_man hc hn => exact AMO.cons_man hc (noMan_append hn hb)
+
+theorem amo_andThen_left {a : Res} {st : Store} {f : Store → Res}
+    (ha : NoMan a.effs) (hf : ∀ st', AMO (f st').effs) : AMO (a.andThen st f).effs := by
+  rw [andThen_effs]; split
+  · exact amo_append_left ha (hf _)
+  · exact AMO.noMan ha
+
+theorem amo_andThen_right {a : Res} {st : Store} {f : Store → Res}
+    (ha : AMO a.effs) (hf : ∀ st', NoMan (f st').effs) : AMO (a.andThen st f).effs := by
+  rw [andThen_effs]; split
+  · exact amo_append_right ha (hf _)
+  · exact ha
+
+theorem crashPrefix_cons {e : Effect} {es p : List Effect} (h : CrashPrefix (e :: es) p) :
+    p = [] ∨ (∃ e', CutOf e e' ∧ p = [e']) ∨ ∃ p', p = e :: p' ∧ CrashPrefix es p' := by
+  obtain ⟨k, h⟩ := h
+  cases k with
+  | zero =>
+    rcases h with rfl | ⟨e0, e', hk, hc, rfl⟩
+    · left; rfl
+    · simp at hk; subst hk; right; left; exact ⟨e', hc, by simp⟩
+  | succ k =>
+    rcases h with rfl | ⟨e0, e', hk, hc, rfl⟩
+    · right; right; exact ⟨es.take k, by simp, ⟨k, Or.inl rfl⟩⟩
+    · right; right
+      exact ⟨es.take k ++ [e'], by simp, ⟨k, Or.inr ⟨e0, e', by simpa using hk, hc, rfl⟩⟩⟩
+
+/-- with at most one, uncuttable, manifest-writing effect, every crash leaves each manifest FILE
+either as it was or as the completed operation leaves it -/
+theorem old_or_new {es : List Effect} (h : AMO es) :
+    ∀ {st : Store} {p : List Effect}, CrashPrefix es p → ∀ n,
+      get (run p st) (.man n) = get st (.man n) ∨ get (run p st) (.man n) = get (run es st) (.man n) := by
+  induction h with
+  | noMan hn => intro st p hp n; left; exact noMan_get (noMan_crashPrefix hn hp) n
+  | @cons_noMan e es he _ ih =>
+    intro st p hp n
+    rcases crashPrefix_cons hp with rfl | ⟨e', hc, rfl⟩ | ⟨p', rfl, hp'⟩
+    · left; rfl
+    · left
+      apply get_run_of_not_written
+      intro x hx hm
+      simp at hx; subst hx
+      rw [writes_cut hc] at hm
+      have := he e (by simp) n hm
+      cases this
+    · have hst : get (apply e st) (.man n) = get st (.man n) := noMan_get (es := [e]) he n
+      simp only [run]
+      rcases ih hp' n with h | h
+      · left; rw [h, hst]
+      · right; exact h
+  | @cons_man e es hcut hn =>
+    intro st p hp n
+    rcases crashPrefix_cons hp with rfl | ⟨e', hc, rfl⟩ | ⟨p', rfl, hp'⟩
+    · left; rfl
+    · have := cutOf_cuttable hc; simp [hcut] at this
+    · right; simp only [run]; rw [noMan_get (noMan_crashPrefix hn hp') n, noMan_get hn n]
+
+theorem amo_writeAtomic (k : Nat) (n : Name) (c : Content) : AMO (writeAtomic k (.man n) c) := by
+  show AMO ([Effect.mk (.temp k), .put (.temp k) c, .chmod (.temp k)] ++ [.mv (.temp k) (.man n)])
+  apply amo_append_left
+  · intro e he n' hw
+    simp at he; rcases he with rfl | rfl | rfl <;> simp [writes] at hw
+  · exact AMO.cons_man rfl noMan_nil
+
+theorem amo_writeManifest (env : Env) (hat : env.atomicMan = true) (k : Nat) (n : Name) (m : Man) :
+    AMO (writeManifest env k n m).effs := by
+  unfold writeManifest; simp only [hat, ↓reduceIte]; exact amo_writeAtomic k n _
+
+/-- in the fixed variant every operation has at most one manifest-writing effect, a rename or an unlink -/
+theorem amo_exec (env : Env) (hat : env.atomicMan = true) (op : Op) (st : Store) : AMO (op.exec env st).effs := by
+  cases op with
+  | upload k d body =>
+    apply AMO.noMan
+    simp only [Op.exec]
+    unfold upload; split
+    · exact noMan_nil
+    · exact manOnly_newLayer _ env k _ st
+  | create n ups file datas cfg =>
+    simp only [Op.exec, create]
+    apply amo_andThen_left (manOnly_uploads _ env 0 ups st)
+    intro st'
+    unfold createHandler
+    dsimp only
+    split
+    · exact AMO.noMan noMan_nil
+    · apply amo_andThen_left (manOnly_newLayers _ env _ _ st')
+      intro st2
+      apply amo_andThen_right (amo_writeManifest env hat _ n _)
+      intro st3
+      split
+      · exact manOnly_removeLayers _ _ _
+      · exact noMan_nil
+  | copy src dst =>
+    simp only [Op.exec]
+    unfold copy
+    split
+    · exact AMO.noMan noMan_nil
+    · split
+      · exact AMO.noMan noMan_nil
+      · simp only [hat, ↓reduceIte]; exact amo_writeAtomic 0 dst _
+  | delete n =>
+    simp only [Op.exec]
+    unfold delete
+    split
+    · exact AMO.noMan noMan_nil
+    · apply amo_andThen_right
+      · exact AMO.cons_man rfl noMan_nil
+      · intro st'; exact manOnly_removeLayers _ _ _
+  | pull reg n m =>
+    simp only [Op.exec]
+    unfold pull
+    dsimp only
+    cases hX : downloads env reg 0 (m.all.map Layer.digest) st with
+    | mk dl fresh =>
+      simp only
+      have := manOnly_downloads [] env reg 0 (m.all.map Layer.digest) st
+      rw [hX] at this
+      apply amo_andThen_left this
+      intro st1
+      apply amo_andThen_left (manOnly_verify _ env fresh st1)
+      intro st2
+      apply amo_andThen_right (amo_writeManifest env hat _ n m)
+      intro st3
+      exact manOnly_deleteUnused _ env _ st3
+
+/-! ### what the completed operation leaves at a manifest path (fixed variant) -/
+
+theorem get_run_writeAtomic_man (k : Nat) (n n' : Name) (c : Content) (st : Store) :
+    get (run (writeAtomic k (.man n) c) st) (.man n') = if n' = n then some c else get st (.man n') := by
+  by_cases h : n' = n
+  · subst h; simp [writeAtomic, run, apply, get_set]
+  · simp [writeAtomic, run, apply, get_set, get_del, h]
+
+/-- `writeManifest` followed by clean-up that touches no manifest -/
+theorem get_run_wm_then (env : Env) (hat : env.atomicMan = true) (k : Nat) (n n' : Name) (m : Man) (st : Store)
+    (f : Store → Res) (hf : ∀ st', NoMan (f st').effs) :
+    get (run ((writeManifest env k n m).andThen st f).effs st) (.man n') =
+      if n' = n then some (.man m) else get st (.man n') := by
+  rw [run_andThen]
+  have hok : (writeManifest env k n m).ok = true := by unfold writeManifest; split <;> rfl
+  have heffs : (writeManifest env k n m).effs = writeAtomic k (.man n) (.man m) := by
+    unfold writeManifest; simp [hat]
+  simp only [hok, ↓reduceIte]
+  rw [noMan_get (hf _), heffs, get_run_writeAtomic_man]
+
+/-- the value a completed operation may leave at a manifest path, other than the old one -/
+def NewManOK (st : Store) (op : Op) (n' : Name) (v : Option Content) : Prop :=
+  (∃ m, v = some (.man m)) ∨ (op = .delete n' ∧ v = none) ∨
+  (∃ src c, op = .copy src n' ∧ get st (.man src) = some c ∧ v = some c)
+
+theorem final_man (env : Env) (hat : env.atomicMan = true) (op : Op) (st : Store) (n' : Name) :
+    get (run (op.exec env st).effs st) (.man n') = get st (.man n') ∨
+    NewManOK st op n' (get (run (op.exec env st).effs st) (.man n')) := by
+  cases op with
+  | upload k d body =>
+    left
+    apply noMan_get
+    simp only [Op.exec]
+    unfold upload; split
+    · exact noMan_nil
+    · exact manOnly_newLayer _ env k _ st
+  | create n ups file datas cfg =>
+    simp only [Op.exec, create]
+    rw [run_andThen]
+    have hup : ∀ x, get (run (uploads env 0 ups st).effs st) (.man x) = get st (.man x) :=
+      fun x => noMan_get (manOnly_uploads _ env 0 ups st) x
+    split
+    · generalize run (uploads env 0 ups st).effs st = st1 at hup ⊢
+      unfold createHandler
+      dsimp only
+      split
+      · left; simp only [run]; exact hup n'
+      · rw [run_andThen]
+        have hnl := noMan_get (st := st1) (manOnly_newLayers [] env ups.length (datas ++ [cfg]) st1)
+        split
+        · rw [get_run_wm_then env hat]
+          · split
+            · right; left; exact ⟨_, rfl⟩
+            · left; rw [hnl, hup]
+          · intro st3; split
+            · exact manOnly_removeLayers _ _ _
+            · exact noMan_nil
+        · left; rw [hnl, hup]
+    · left; exact hup n'
+  | copy src dst =>
+    simp only [Op.exec]
+    unfold copy
+    split
+    · left; rfl
+    · split
+      · left; rfl
+      · rename_i c hc
+        simp only [hat, ↓reduceIte]
+        rw [get_run_writeAtomic_man]
+        split
+        · rename_i h; subst h; right; right; right; exact ⟨src, c, rfl, hc, rfl⟩
+        · left; rfl
+  | delete n =>
+    simp only [Op.exec]
+    unfold delete
+    split
+    · left; rfl
+    · rw [run_andThen]
+      simp only [↓reduceIte]
+      rw [noMan_get (manOnly_removeLayers _ _ _)]
+      by_cases h : n' = n
+      · subst h; right; right; left; exact ⟨rfl, by simp [run, apply, get_del]⟩
+      · left; simp [run, apply, get_del, h]
+  | pull reg n m =>
+    simp only [Op.exec]
+    unfold pull
+    dsimp only
+    cases hX : downloads env reg 0 (m.all.map Layer.digest) st with
+    | mk dl fresh =>
+      simp only
+      have hdl : NoMan dl.effs := by
+        have := manOnly_downloads [] env reg 0 (m.all.map Layer.digest) st
+        rw [hX] at this; exact this
+      rw [run_andThen]
+      split
+      · rw [run_andThen]
+        have hv := fun st1 => manOnly_verify [] env fresh st1
+        split
+        · rw [get_run_wm_then env hat]
+          · split
+            · right; left; exact ⟨_, rfl⟩
+            · left; rw [noMan_get (hv _), noMan_get hdl]
+          · intro st3; exact manOnly_deleteUnused _ env _ st3
+        · left; rw [noMan_get (hv _), noMan_get hdl]
+      · left; exact noMan_get hdl n'
+
+
+/-! ### exact final manifest files of copy / delete / upload (fixed variant), for `rerun_converges` -/
+
+theorem copy_final (env : Env) (hat : env.atomicMan = true) (src dst n' : Name) (st : Store) :
+    get (run (copy env src dst st).effs st) (.man n') =
+      if src ≠ dst ∧ n' = dst ∧ (get st (.man src)).isSome = true then get st (.man src)
+      else get st (.man n') := by
+  unfold copy
+  by_cases hsd : src = dst
+  · simp [hsd, run]
+  · simp only [hsd, ↓reduceIte]
+    cases hs : get st (.man src) with
+    | none => simp [run]
+    | some c =>
+      simp only [hat, ↓reduceIte]
+      rw [get_run_writeAtomic_man]
+      by_cases hn : n' = dst <;> simp [hn, hsd]
+
+theorem delete_final (n n' : Name) (st : Store) :
+    get (run (delete n st).effs st) (.man n') =
+      if (readable st n).isSome = true ∧ n' = n then none else get st (.man n') := by
+  unfold delete
+  cases hr : readable st n with
+  | none => simp [run]
+  | some m =>
+    simp only [run_andThen, ↓reduceIte]
+    rw [noMan_get (manOnly_removeLayers _ _ _)]
+    by_cases h : n' = n
+    · subst h; simp [run, apply, get_del]
+    · simp [run, apply, get_del, h]
+
+theorem upload_final (env : Env) (k : Nat) (d : Digest) (body : Bytes) (n' : Name) (st : Store) :
+    get (run (upload env k d body st).effs st) (.man n') = get st (.man n') := by
+  apply noMan_get
+  unfold upload; split
+  · exact noMan_nil
+  · exact manOnly_newLayer _ env k _ st
+
+
+theorem writeManifest_ok (env : Env) (k : Nat) (n : Name) (m : Man) : (writeManifest env k n m).ok = true := by
+  unfold writeManifest; split <;> rfl
+
+theorem pull_final (env : Env) (hat : env.atomicMan = true) (reg : Digest → Option Bytes) (n n' : Name)
+    (m : Man) (st : Store) :
+    get (run (pull env reg n m st).effs st) (.man n') =
+      bif (pull env reg n m st).ok && decide (n' = n) then some (.man m) else get st (.man n') := by
+  unfold pull
+  dsimp only
+  cases hX : downloads env reg 0 (m.all.map Layer.digest) st with
+  | mk dl fresh =>
+    simp only
+    have hdl : NoMan dl.effs := by
+      have := manOnly_downloads [] env reg 0 (m.all.map Layer.digest) st
+      rw [hX] at this; exact this
+    have hv := fun st1 => manOnly_verify [] env fresh st1
+    rw [run_andThen, andThen_ok]
+    by_cases h1 : dl.ok = true
+    · simp only [h1, ↓reduceIte, Bool.true_and]
+      rw [run_andThen, andThen_ok]
+      by_cases h2 : (verify env fresh (run dl.effs st)).ok = true
+      · simp only [h2, ↓reduceIte, Bool.true_and]
+        rw [get_run_wm_then env hat _ _ _ _ _ _ (fun st3 => manOnly_deleteUnused _ env _ st3), andThen_ok,
+          writeManifest_ok, noMan_get (hv _), noMan_get hdl]
+        simp [deleteUnused]
+      · simp only [h2, Bool.false_eq_true, ↓reduceIte, Bool.false_and, cond_false]
+        rw [noMan_get (hv _), noMan_get hdl]
+    · simp only [h1, Bool.false_eq_true, ↓reduceIte, Bool.false_and, cond_false]
+      exact noMan_get hdl n'
+
 end OllamaVerif.StoreCrash
